@@ -105,34 +105,34 @@ theorem action_keeps_forest {is : List Instr} {dl : Bool} {mr : Nat} {data : Lis
 /-- **C04, whole pipeline.** For every font – any passes, state tables, rules, constraint and action programs – and every
 text: the attachment pointers of the segment the modelled pipeline returns form a forest, and its glyph stream is well
 formed (so the slots of the stream are real slots). -/
-theorem pipeline_forest (font : Pass.Font) (text : List Nat) (fuel : Nat) {c : Ctx} {ci : List Assoc.CI}
-    (e : Pass.shape font text fuel = .ok (some (c, ci))) :
+theorem pipeline_forest (font : Pass.Font) (text : List Nat) (fuel : Nat) (dir : Nat) {c : Ctx} {ci : List Assoc.CI}
+    (e : Pass.shape font text fuel dir = .ok (some (c, ci))) :
     Forest c.seg ∧ ∃ l, Linked c.seg l ∧ Clean c.seg l ∧ ∀ j ∈ l, Real c.seg j :=
-  ⟨Pass.shape_forest font text fuel e, by
-    obtain ⟨l, h1, h2, _⟩ := Pass.shape_wf font text fuel e
+  ⟨Pass.shape_forest font text fuel dir e, by
+    obtain ⟨l, h1, h2, _⟩ := Pass.shape_wf font text fuel dir e
     exact ⟨l, h1, h2, fun j hj => (h2.live j hj).2⟩⟩
 
 /-- **C04: attachments stay inside the segment.** For every font and text: in the segment the modelled pipeline returns, a
 slot of the stream that is attached is attached to a slot of the stream (`gr_slot_attached_to` never leaves the
 segment). -/
-theorem attachments_stay_in_segment (font : Pass.Font) (text : List Nat) (fuel : Nat) {c : Ctx} {ci : List Assoc.CI}
-    (e : Pass.shape font text fuel = .ok (some (c, ci))) :
+theorem attachments_stay_in_segment (font : Pass.Font) (text : List Nat) (fuel : Nat) (dir : Nat) {c : Ctx} {ci : List Assoc.CI}
+    (e : Pass.shape font text fuel dir = .ok (some (c, ci))) :
     ∃ l, Linked c.seg l ∧ Clean c.seg l ∧ ∀ j ∈ l, ∀ p, (c.seg.get j).parent = some p → p ∈ l :=
-  Pass.shape_parents_in_stream font text fuel e
+  Pass.shape_parents_in_stream font text fuel dir e
 
 /-- **C04: the base chain.** For every font and text, in the segment the modelled pipeline returns and
 `Segment::finalise` completes with `linkClusters`: the bases (the slots of the stream without a parent), in stream order,
 form one `sibling` chain that contains each of them exactly once; attached slots keep their `sibling`, all slots their
 `parent` and first `child` – so the child chains of `forest_for_clients` are untouched. -/
-theorem bases_form_one_chain (font : Pass.Font) (text : List Nat) (fuel : Nat) {c : Ctx} {ci : List Assoc.CI}
-    (e : Pass.shape font text fuel = .ok (some (c, ci))) :
+theorem bases_form_one_chain (font : Pass.Font) (text : List Nat) (fuel : Nat) (dir : Nat) {c : Ctx} {ci : List Assoc.CI}
+    (e : Pass.shape font text fuel dir = .ok (some (c, ci))) :
     ∃ l, Linked c.seg l ∧
       SibChain (Pass.linkClusters c.seg 0) (l.filter fun i => (c.seg.get i).parent.isNone).head? (l.filter fun i => (c.seg.get i).parent.isNone) ∧
       (l.filter fun i => (c.seg.get i).parent.isNone).Nodup ∧
       (∀ j, ((Pass.linkClusters c.seg 0).get j).parent = (c.seg.get j).parent ∧ ((Pass.linkClusters c.seg 0).get j).child = (c.seg.get j).child) ∧
       (∀ j, (c.seg.get j).parent ≠ none → ((Pass.linkClusters c.seg 0).get j).sibling = (c.seg.get j).sibling) := by
-  obtain ⟨l, hl, hc, _⟩ := Pass.shape_wf font text fuel e
-  have hF := Pass.shape_forest font text fuel e
+  obtain ⟨l, hl, hc, _⟩ := Pass.shape_wf font text fuel dir e
+  have hF := Pass.shape_forest font text fuel dir e
   obtain ⟨h1, h2, h3⟩ := Pass.linkClusters_spec hF hl hc
   exact ⟨l, hl, h1, hl.nodup.filter _, fun j => ⟨(h2 j).1, (h2 j).2.1⟩, h3⟩
 
